@@ -99,11 +99,13 @@ class World:
         self.sublabels = (np.arange(len(self.sub)) % 3) + 0
         self.psub = np.arange(max(1, F - 1))
         self.plabels = (np.arange(len(self.psub)) % 2) + 0
+        self.scheme_str = np.array(["#E7414E", "#1b9e77", "#7570b3", "#e7298a"])                   # colour schemes handed over as arrays (string and RGBA)
+        self.scheme_rgba = np.array(plt.get_cmap("viridis")(np.linspace(0, 1, 4)))
         if int_dtype is not None:           # the same integer data in another dtype: views/copies of numpy depend on it
             for k in ("col", "u", "tgt", "perm", "idx", "tree", "sublabels", "plabels"):
                 setattr(self, k, np.asarray(getattr(self, k)).astype(int_dtype))
         self.arrays = dict(sub=self.sub, sublabels=self.sublabels, psub=self.psub, plabels=self.plabels, col=self.col, u=self.u, J=self.J, tgt=self.tgt, pts=self.pts, perm=self.perm, idx=self.idx, tree=self.tree, P=self.P, H=self.H,
-                           k=self.k, cross=self.cross, scalar=self.scalar)
+                           k=self.k, cross=self.cross, scalar=self.scalar, scheme_str=self.scheme_str, scheme_rgba=self.scheme_rgba)
         if readonly:
             for a in self.arrays.values():
                 a.setflags(write=False)
@@ -179,6 +181,9 @@ class World:
             "plotting.plot_edges(full labels, color)": (lambda: pl.plot_edges(l, labels=w.col, ax=fig_ax(), color="k"), False),
             "plotting.plot_plaquettes(subset-sized labels, color)": (lambda: pl.plot_plaquettes(l, labels=w.plabels, subset=w.psub, ax=fig_ax(), color="k"), False),
             "plotting.plot_plaquettes(labels, scheme)": (lambda: pl.plot_plaquettes(l, labels=w.plabels, subset=w.psub, ax=fig_ax(), color_scheme=np.array(["r", "g", "b"])), False),
+            "plotting.plot_edges(array scheme, color)": (lambda: pl.plot_edges(l, labels=w.col, ax=fig_ax(), color_scheme=w.scheme_str, color="#000000"), False),
+            "plotting.plot_plaquettes(rgba scheme, color)": (lambda: pl.plot_plaquettes(l, labels=w.plabels, subset=w.psub, ax=fig_ax(), color_scheme=w.scheme_rgba, color=(0.0, 0.0, 0.0, 1.0)), False),
+            "plotting.plot_vertices(array scheme, color)": (lambda: pl.plot_vertices(l, labels=np.asarray(w.perm) % 3, ax=fig_ax(), color_scheme=w.scheme_str, color="#000000"), False),
             "plotting.plot_vertices(subset-sized labels)": (lambda: pl.plot_vertices(l, labels=w.sublabels[: len(w.idx)], subset=w.idx, ax=fig_ax()), False),
             "plotting.plot_dual(color)": (lambda: pl.plot_dual(l, ax=fig_ax(), color="k"), False),
             "plotting.plot_vertices": (lambda: pl.plot_vertices(l, ax=fig_ax(), labels=np.asarray(w.perm) % 3), False),
